@@ -63,11 +63,54 @@ template <> struct TT<gil::gray32f_pixel_t> {
     static double rnd(vh::rng& r, bool mid) { return mid ? (double)(float)(0.25 + 0.5 * r.unit()) : (double)(float)r.unit(); }
     static double lo() { return 0; } static double hi() { return 1; } static double sentinel() { return 0.123; }
 };
+// ---- wide channels: 32-bit integers and double hold values that float's 24-bit significand cannot represent
+typedef gil::pixel<double, gil::gray_layout_t> gray64d_pixel_t;
+typedef gil::pixel<double, gil::rgb_layout_t> rgb64d_pixel_t;
+static double pick(vh::rng& r, const double* v, int n) { return v[r.below(n)]; }
+static double rnd_u32(vh::rng& r, bool mid) {
+    static const double sp[] = {0, 1, 16777217.0, 16777219.0, 33554433.0, 2147483647.0, 2147483648.0, 2147483649.0, 4294967295.0, 4294967294.0, 4278190081.0, 3000000001.0};
+    static const double spm[] = {1073741824.0, 1090519041.0 /*2^30+2^24+1*/, 2147483647.0, 2147483648.0, 2147483649.0, 3221225471.0, 2164260865.0 /*2^31+2^24+1*/};
+    if (mid) return r.coin() ? pick(r, spm, 7) : 1073741824.0 + (double)r.below(2147483648ull);
+    return r.coin() ? pick(r, sp, 12) : (double)(r.next() & 0xffffffffull);
+}
+static double rnd_s32(vh::rng& r, bool mid) {
+    static const double sp[] = {-2147483648.0, -2147483647.0, 2147483647.0, 2147483646.0, 16777217.0, -16777217.0, -1, 0, 1, 1073741825.0, -1073741825.0, 2130706433.0};
+    if (mid) return r.coin() ? (r.coin() ? 16777217.0 : -1056964609.0) : (double)((long)r.below(2147483649ull) - 1073741824l);
+    return r.coin() ? pick(r, sp, 12) : (double)(int32_t)(r.next() & 0xffffffffull);
+}
+static double rnd_f64(vh::rng& r, bool mid) {
+    static const double sp[] = {9007199254740991.0, -9007199254740991.0, 9007199254740990.0, 16777217.0, -16777217.0, 0.1, 1e-3, 1.0 / 3, 123456789.125, 0, 4294967297.0, 4503599627370497.0, 1e-300};
+    static const double spm[] = {16777217.0, -16777217.0, 0.1, 1.0 / 3, 123456789.125, 4294967297.0, 1e15 - 0.125, -1e15 + 0.375};
+    if (mid) return r.coin() ? pick(r, spm, 8) : (2 * r.unit() - 1) * 1e15;
+    return r.coin() ? pick(r, sp, 13) : (2 * r.unit() - 1) * std::ldexp(1.0, r.range(-20, 52));
+}
+#define WIDE_TT(P, NAME, CH, RND, LO, HI, SENT, TOL)                                                          \
+    template <> struct TT<P> {                                                                                \
+        static const char* name() { return NAME; } static const bool is_float = false;                       \
+        static double tol() { return TOL; }                                                                   \
+        static void set(P& p, int c, double v) { p[c] = (CH)v; }                                              \
+        static double rnd(vh::rng& r, bool mid) { return RND(r, mid); }                                       \
+        static double lo() { return LO; } static double hi() { return HI; } static double sentinel() { return SENT; } \
+    };
+// tol: 1 unit where the sampler truncates the double sum to an integer channel; 0 for double channels (nothing is
+// truncated; only the rounding of the four weighted products and three additions remains, added per point below)
+WIDE_TT(gil::gray32_pixel_t, "gray32", uint32_t, rnd_u32, 0, 4294967295.0, 2779096485.0, 1.0)
+WIDE_TT(gil::rgb32_pixel_t, "rgb32", uint32_t, rnd_u32, 0, 4294967295.0, 2779096485.0, 1.0)
+WIDE_TT(gil::gray32s_pixel_t, "gray32s", int32_t, rnd_s32, -2147483648.0, 2147483647.0, -1515870811.0, 1.0)
+WIDE_TT(gray64d_pixel_t, "gray64d", double, rnd_f64, -9007199254740991.0, 9007199254740991.0, 0.123, 0.0)
+WIDE_TT(rgb64d_pixel_t, "rgb64d", double, rnd_f64, -9007199254740991.0, 9007199254740991.0, 0.123, 0.0)
+static std::string num(double v) { char b[40]; snprintf(b, sizeof b, "%.17g", v); return b; }
+
 template <class P> static double chan(P const& p, int c) { return (double)(float)p[c]; }
+template <> double chan(gil::gray32_pixel_t const& p, int c) { return (double)p[c]; }
+template <> double chan(gil::rgb32_pixel_t const& p, int c) { return (double)p[c]; }
+template <> double chan(gil::gray32s_pixel_t const& p, int c) { return (double)p[c]; }
+template <> double chan(gray64d_pixel_t const& p, int c) { return p[c]; }
+template <> double chan(rgb64d_pixel_t const& p, int c) { return p[c]; }
 template <> double chan(gil::gray8_pixel_t const& p, int c) { return (double)p[c]; }
 template <> double chan(gil::rgb8_pixel_t const& p, int c) { return (double)p[c]; }
 template <> double chan(gil::gray16_pixel_t const& p, int c) { return (double)p[c]; }
-template <class P> static std::string pstr(P const& p) { std::string s = "["; for (int c = 0; c < (int)gil::num_channels<P>::value; ++c) s += (c ? "," : "") + vh::cat(chan(p, c)); return s + "]"; }
+template <class P> static std::string pstr(P const& p) { std::string s = "["; for (int c = 0; c < (int)gil::num_channels<P>::value; ++c) s += (c ? "," : "") + num(chan(p, c)); return s + "]"; }
 template <class P> static P make_sentinel() { P p; for (int c = 0; c < (int)gil::num_channels<P>::value; ++c) TT<P>::set(p, c, TT<P>::sentinel()); return p; }
 template <class P> static bool same(P const& a, P const& b) { for (int c = 0; c < (int)gil::num_channels<P>::value; ++c) if (chan(a, c) != chan(b, c)) return false; return true; }
 
@@ -157,10 +200,14 @@ template <class P, class F> static void check_point(source<P>& s, typename sourc
             if (!any) { V("bilinear.true-outside." + tn + "." + reg, [&] { return vh::cat(what(), " reported inside although no source pixel surrounds p; result=", pstr(res)); }); return; }
             // one unit because the sampler truncates (1e-5 for float channels), plus the rounding of the
             // weights in the coordinate type F (8 ulp of the channel range)
-            const double tol = TT<P>::tol() + 8.0 * (double)std::numeric_limits<F>::epsilon() * TT<P>::hi();
+            // weights in the coordinate type F (4 weighted products + 3 additions, each rounded once: 8 ulp of the
+            // largest surrounding magnitude -- derived from the documented formula, not from observed output)
+            double maxabs = 0;
+            for (int c = 0; c < N; ++c) maxabs = std::max(maxabs, std::max(std::fabs(mn[c]), std::fabs(mx[c])));
+            const double tol = TT<P>::tol() + 8.0 * (double)std::numeric_limits<F>::epsilon() * maxabs;
             for (int c = 0; c < N; ++c) {
                 double r = chan(res, c);
-                if (r < mn[c] - tol || r > mx[c] + tol) { V("bilinear.hull." + tn + "." + reg, [&] { return vh::cat(what(), " channel ", c, " = ", r, " outside the range [", mn[c], ",", mx[c], "] of the surrounding source pixels"); }); break; }
+                if (r < mn[c] - tol || r > mx[c] + tol) { V("bilinear.hull." + tn + "." + reg, [&] { return vh::cat(what(), " channel ", c, " = ", num(r), " outside the range [", num(mn[c]), ",", num(mx[c]), "] of the surrounding source pixels"); }); break; }
             }
             // edge-clamped bilinear formula
             auto cl = [](long a, long n) { return a < 0 ? 0 : a >= n ? n - 1 : a; };
@@ -169,7 +216,7 @@ template <class P, class F> static void check_point(source<P>& s, typename sourc
             for (int c = 0; c < N; ++c) {
                 ld f = (1 - ax) * (1 - ay) * s.at(x0, y0, c) + ax * (1 - ay) * s.at(x1, y0, c) + (1 - ax) * ay * s.at(x0, y1, c) + ax * ay * s.at(x1, y1, c);
                 double r = chan(res, c);
-                if (std::fabs((double)(r - f)) > tol) { V("bilinear.formula." + tn + "." + reg, [&] { return vh::cat(what(), " channel ", c, " = ", r, ", bilinear formula gives ", (double)f); }); break; }
+                if (std::fabs((double)(r - f)) > tol) { V("bilinear.formula." + tn + "." + reg, [&] { return vh::cat(what(), " channel ", c, " = ", num(r), ", bilinear formula gives ", num((double)f), " (tolerance ", tol, ")"); }); break; }
             }
             if (px == std::floor(px) && py == std::floor(py) && fx >= 0 && fx < w && fy >= 0 && fy < h) {
                 for (int c = 0; c < N; ++c) if (chan(res, c) != s.at(fx, fy, c)) { V("bilinear.integer-exact." + tn + "." + reg, [&] { return vh::cat(what(), " result=", pstr(res), " differs from the source pixel at the integer coordinate"); }); break; }
@@ -512,6 +559,18 @@ int main(int argc, char** argv) {
     algebra_cases();
     algebra_model_cases<double>();
     algebra_model_cases<float>();
+#elif C17_PART == 4
+    // wide channels, double coordinates (with float coordinates the documented algorithm itself rounds channel*weight to 24 bits)
+    sampler_cases<gil::gray32_pixel_t, double>("double");
+    sampler_cases<gil::gray32s_pixel_t, double>("double");
+    sampler_cases<gil::rgb32_pixel_t, double>("double");
+#elif C17_PART == 5
+    sampler_cases<gray64d_pixel_t, double>("double");
+    sampler_cases<rgb64d_pixel_t, double>("double");
+#elif C17_PART == 6
+    resample_cases<gil::gray32_pixel_t>();
+    resample_cases<gil::gray32s_pixel_t>();
+    resample_cases<gray64d_pixel_t>();
 #endif
     return vh::finish();
 }
